@@ -221,6 +221,10 @@ PROGRAMS = [
     "def t(a: Qint[2], b: Qint[2]) -> Qint[4]:\n\treturn a * b",
     "def t(a: Qint[2], b: Qint[2]) -> Qint[4]:\n\treturn Qint4(0) + a + b - 3",
     "def t(a: bool, b: bool, c: bool) -> Tuple[bool, bool, bool]:\n\td = a ^ b ^ c\n\treturn (d, d and a, d or (b and c))",
+    # several return bits with the SAME expression; a function that is never all-false (no zero: the minimum is the fewest true bits)
+    "def t(a: bool, b: bool) -> Tuple[bool, bool, bool]:\n\tm = a and b\n\treturn (m, m, not m)",
+    "def t(a: bool, b: bool) -> Tuple[bool, bool]:\n\treturn (a ^ b, a ^ b)",
+    "def t(a: Qint[2]) -> Tuple[bool, bool, bool]:\n\treturn (a == 1, a != 1, a == 1)",
 ]
 
 
@@ -310,6 +314,33 @@ def job_misc(_):
             break
     out.append(res("C18.decode_samples.arguments-spelled-by-the-sample", PROVED, **base) if not bad else
                res("C18.decode_samples.arguments-spelled-by-the-sample", REFUTED, replayed=True, replay=bad, **base))
+    # samples that LACK a variable (the model does not mention a bit the function does not depend on): the value of the missing bit is open, every
+    # bit the sample does spell must sit at its own position; several arguments, a 3-bit argument, each bit missing in turn
+    qf3 = qlassf("def t(a: Qint[3], b: Qint[2]) -> bool:\n\treturn a == 5 and b == 2", to_compile=False)
+    allbits = ["a.0", "a.1", "a.2", "b.0", "b.1"]
+    bad = None
+    for missing in allbits:
+        for r in range(32):
+            full = {nm: (r >> i) & 1 for i, nm in enumerate(allbits)}
+            s = {k: v for k, v in full.items() if k != missing}
+            s["_ret"] = 0
+            try:
+                got = decode_samples(qf3, [s])[0].sample
+                ga, gb = int(got["a"]), int(got["b"])
+            except Exception as ex:  # noqa
+                bad = dict(sample=s, observed=f"raises {type(ex).__name__}: {ex}"[:200])
+                break
+            for nm, gv in (("a", ga), ("b", gb)):
+                for k in range(3 if nm == "a" else 2):
+                    bit = f"{nm}.{k}"
+                    if bit != missing and ((gv >> k) & 1) != full[bit]:
+                        bad = dict(sample=s, missing_variable=missing, observed=dict(a=ga, b=gb), expected=f"bit {k} of {nm} = {full[bit]} (the sample's {bit})")
+            if bad:
+                break
+        if bad:
+            break
+    nm_ = "C18.decode_samples.present-bits-keep-their-position[a variable missing from the sample]"
+    out.append(res(nm_, PROVED, **base) if not bad else res(nm_, REFUTED, replayed=True, replay=bad, **base))
     return out
 
 
